@@ -205,7 +205,7 @@ func scalarHelperPaths(call *ssa.Call) [][]*ssa.BasicBlock {
 		return nil
 	}
 	for i := 0; i < f.Signature.Results().Len(); i++ {
-		if _, ok := f.Signature.Results().At(i).Type().Underlying().(*types.Basic); !ok {
+		if !scalarOrRecordOfScalars(f.Signature.Results().At(i).Type()) {
 			return nil
 		}
 	}
@@ -234,6 +234,152 @@ func scalarHelperPaths(call *ssa.Call) [][]*ssa.BasicBlock {
 	}
 	helperPathCache[f] = out
 	return out
+}
+
+// scalarOrRecordOfScalars: a basic type, or a struct all of whose fields are basic (`usleDailyLoads{fineKg, coarseKg,
+// …}`): a helper returning one can still touch no array.
+func scalarOrRecordOfScalars(t types.Type) bool {
+	switch u := t.Underlying().(type) {
+	case *types.Basic:
+		return true
+	case *types.Struct:
+		for i := 0; i < u.NumFields(); i++ {
+			if _, ok := u.Field(i).Type().Underlying().(*types.Basic); !ok {
+				return false
+			}
+		}
+		return u.NumFields() > 0
+	}
+	return false
+}
+
+// recFieldSrc: what a field of a local struct holds at a load — a value stored to the field itself, or the same field of a
+// struct value stored whole (`loads, ok := helper(…)`), or nothing yet (val == nil: the zero value).
+type recFieldSrc struct {
+	val   ssa.Value
+	whole bool
+}
+
+// structFieldSources: the sources of base.field at `at`, looking backwards along the path being evaluated (the
+// frame's inside an inlined helper, the kernel's otherwise; all predecessors off the path).
+func (pc *pathCtx) structFieldSources(base *ssa.Alloc, field int, at ssa.Instruction) (out []recFieldSrc, ok bool) {
+	var pos map[*ssa.BasicBlock]int
+	var path []*ssa.BasicBlock
+	if base.Parent() == pc.kernel {
+		pos, path = pc.pos, pc.path
+	} else if fr := pc.cur; fr != nil && base.Parent() == fr.fn {
+		pos, path = fr.pos, fr.path
+	}
+	ok = true
+	seen := map[*ssa.BasicBlock]bool{}
+	add := func(s recFieldSrc) {
+		for _, o := range out {
+			if o == s {
+				return
+			}
+		}
+		out = append(out, s)
+	}
+	var scan func(b *ssa.BasicBlock, from int)
+	scan = func(b *ssa.BasicBlock, from int) {
+		for i := from; i >= 0; i-- {
+			if st, isStore := b.Instrs[i].(*ssa.Store); isStore {
+				if fa, isFA := st.Addr.(*ssa.FieldAddr); isFA && fa.X == ssa.Value(base) && fa.Field == field {
+					add(recFieldSrc{val: st.Val})
+					return
+				}
+				if st.Addr == ssa.Value(base) {
+					if u, isLoad := st.Val.(*ssa.UnOp); isLoad && u.Op == token.MUL && u.X == ssa.Value(base) {
+						continue // `*t0 = *t0`: the copy a named result makes of itself
+					}
+					add(recFieldSrc{val: st.Val, whole: true})
+					return
+				}
+			}
+			if b.Instrs[i] == ssa.Instruction(base) {
+				add(recFieldSrc{})
+				return
+			}
+		}
+		if len(b.Preds) == 0 {
+			add(recFieldSrc{})
+			return
+		}
+		if i, on := pos[b]; on && i > 0 {
+			scan(path[i-1], len(path[i-1].Instrs)-1)
+			return
+		}
+		for _, p := range b.Preds {
+			if !seen[p] {
+				seen[p] = true
+				scan(p, len(p.Instrs)-1)
+			}
+		}
+	}
+	scan(at.Block(), instrIndex(at)-1)
+	for _, r := range *base.Referrers() {
+		switch x := r.(type) {
+		case *ssa.Store, *ssa.FieldAddr:
+		case *ssa.UnOp:
+			if x.Op != token.MUL {
+				return nil, false
+			}
+		case *ssa.DebugRef:
+		default:
+			return nil, false // the struct's address escapes: something else may write the field
+		}
+	}
+	return out, ok
+}
+
+// fieldEx: field `field` of the struct value sv — the result of an inlined helper, a local struct loaded whole, or the
+// zero struct.
+func (pc *pathCtx) fieldEx(sv ssa.Value, field int, depth int) (poly, bool) {
+	if depth > 60 {
+		return nil, false
+	}
+	switch x := sv.(type) {
+	case *ssa.Const:
+		return poly{}, true
+	case *ssa.Extract:
+		if call, ok := x.Tuple.(*ssa.Call); ok && pc.cur == nil {
+			if fr := pc.frames[call]; fr != nil && fr.ret != nil && x.Index < len(fr.ret.Results) {
+				pc.cur = fr
+				res, ok := pc.fieldEx(fr.ret.Results[x.Index], field, depth+1)
+				pc.cur = nil
+				return res, ok
+			}
+		}
+	case *ssa.Call:
+		if pc.cur == nil {
+			if fr := pc.frames[x]; fr != nil && fr.ret != nil && len(fr.ret.Results) == 1 {
+				pc.cur = fr
+				res, ok := pc.fieldEx(fr.ret.Results[0], field, depth+1)
+				pc.cur = nil
+				return res, ok
+			}
+		}
+	case *ssa.UnOp:
+		if a, ok := x.X.(*ssa.Alloc); ok && x.Op == token.MUL {
+			return pc.fieldOfLocal(a, field, x, depth+1)
+		}
+	}
+	return nil, false
+}
+
+func (pc *pathCtx) fieldOfLocal(a *ssa.Alloc, field int, at ssa.Instruction, depth int) (poly, bool) {
+	srcs, ok := pc.structFieldSources(a, field, at)
+	if !ok || len(srcs) != 1 {
+		return nil, false
+	}
+	switch s := srcs[0]; {
+	case s.val == nil:
+		return poly{}, true
+	case s.whole:
+		return pc.fieldEx(s.val, field, depth+1)
+	default:
+		return pc.ex(s.val, depth+1), true
+	}
 }
 
 // checkVolumeShare (R12.5): in mass = M·X/D with D a sum of several terms (volumes), X must be one of D's summands:
@@ -518,8 +664,17 @@ func (pc *pathCtx) ex(v ssa.Value, depth int) poly {
 					if vs, ok := reachingFieldStores(base, a.Field, x, 0); ok && len(vs) == 1 && vs[0] != nil {
 						return pc.ex(vs[0], depth+1)
 					}
+					if _, isStruct := base.Type().(*types.Pointer).Elem().Underlying().(*types.Struct); isStruct {
+						if res, ok := pc.fieldOfLocal(base, a.Field, x, depth+1); ok {
+							return res
+						}
+					}
 				}
 			}
+		}
+	case *ssa.Field:
+		if res, ok := pc.fieldEx(x.X, x.Field, depth+1); ok {
+			return res
 		}
 	case *ssa.BinOp:
 		switch x.Op {
@@ -743,6 +898,7 @@ func checkMassBalance(p *Program, r *Report) {
 			byKernel[m.Kernel] = m
 		}
 	}
+	checkSeriesBudgets(p, r, byName)
 	var names []string
 	for n := range balTable {
 		names = append(names, n)
